@@ -125,3 +125,54 @@ def diff_c01(program: dict, po=None, so=None) -> list[dict]:
 
 
 # campaign oracles are looked up by name with the signature (program, polars_obs, sqlite_obs)
+
+
+ALLOWED_REFUSALS = ("SubqueryError", "NotSupportedError")
+
+
+def oracle_c15(program, po, so):
+    """C01's oracle on every export, plus: the two exports of each equivalence pair agree on each backend"""
+    diffs = diff_c01(program, po, so)
+    for xa, xb, kind, ordered in program.get("pairs", []):
+        for be, obs in (("polars", po), ("sqlite", so)):
+            by = {o["id"]: o for o in obs}
+            a, b = by.get(xa), by.get(xb)
+            if a is None or b is None:
+                continue
+            oa, ob = a["outcome"], b["outcome"]
+            if oa == "ok" and ob == "ok":
+                d = compare_frames(a["frame"], b["frame"], ordered)
+                if d:
+                    diffs.append(dict(kind="equiv_differs", stmt=xb, op=kind, backend=be, detail=d,
+                                      dclass="names" if d.startswith("names") else "rowcount" if d.startswith("row counts") else "cell"))
+            elif oa != ob:
+                # one formulation is refused where the other runs: allowed only for the documented SQL refusals
+                bad = a if oa != "ok" else b
+                src_err = _first_error(program, obs, bad["id"])
+                if src_err is not None and src_err.get("exc") in ALLOWED_REFUSALS and be == "sqlite":
+                    continue
+                diffs.append(dict(kind="equiv_outcome", stmt=bad["id"], op=kind, backend=be, exc=(src_err or {}).get("exc"),
+                                  detail=f"{xa}: {oa}, {xb}: {ob}"))
+    return diffs
+
+
+def _first_error(program, obs, xid):
+    """the failing statement an export (possibly skipped) depends on"""
+    by = {o["id"]: o for o in obs}
+    st = {s["id"]: s for s in program["stmts"]}
+    cur = xid
+    seen = set()
+    todo = [xid]
+    errs = []
+    while todo:
+        cur = todo.pop()
+        if cur in seen or cur not in st:
+            continue
+        seen.add(cur)
+        o = by.get(cur)
+        if o is not None and o["outcome"] == "error":
+            errs.append(o)
+        for k in ("src", "right"):
+            if st[cur].get(k):
+                todo.append(st[cur][k])
+    return errs[-1] if errs else None
